@@ -88,6 +88,7 @@ type zvfVReplay struct {
 	Universe zvfVUniverse `json:"universe"`
 	Init     zvfVState    `json:"init"`
 	Ops      []zvfVLabel  `json:"ops"`
+	Info     map[string]string `json:"info"` // classes of the recorded instance ("key:<id>" -> key kind is re-used)
 }
 
 type zvfVRandomCfg struct {
@@ -139,6 +140,7 @@ type zvfVInst struct {
 	byBlob map[string]string
 	byHash map[hashcode]string
 	kr     agent.Agent
+	fx     *verifh.FlexAgent // = kr: a keyring that can also hold security-key identities
 	px     *verifh.Proxy
 	srv    *Server
 	noUp   bool
@@ -218,6 +220,47 @@ func (in *zvfVInst) window(d zvfVCertDef, forever bool, now0 int64) (va, vb uint
 }
 
 func zvfNewInst(u *zvfVUniverse, init zvfVState, zvfHasTick bool, rnd *mrand.Rand) *zvfVInst {
+	return zvfNewInstSK(u, init, zvfHasTick, rnd, nil, nil)
+}
+
+// zvfSKCand lists the keys of the universe that the given operations never hand to the shim's own Add (which
+// cannot carry a security key): those may be instantiated as FIDO security keys.
+func zvfSKCand(u *zvfVUniverse, ops []zvfVLabel) []string {
+	bad := map[string]bool{}
+	for _, o := range ops {
+		if o.Op == "add" {
+			if d, ok := u.Certs[o.Arg]; ok {
+				bad[d.Key] = true
+			} else {
+				bad[o.Arg] = true
+			}
+		}
+	}
+	seen := map[string]bool{}
+	var out []string
+	for _, k := range u.Keys {
+		if !bad[k] && !seen[k] {
+			out, seen[k] = append(out, k), true
+		}
+	}
+	cids := zvfSortedCerts(u)
+	for _, c := range cids {
+		k := u.Certs[c].Key
+		if !bad[k] && !seen[k] {
+			out, seen[k] = append(out, k), true
+		}
+	}
+	sort.Strings(out)
+	return out
+}
+
+// zvfNewInstSK: skCand = keys that may be instantiated as security keys (one of them is, half of the time);
+// force = key kinds to re-use ("key:<id>" -> kind), from a recorded instance.
+func zvfNewInstSK(u *zvfVUniverse, init zvfVState, zvfHasTick bool, rnd *mrand.Rand, skCand []string, force map[string]string) *zvfVInst {
+	skKey, skKind := "", ""
+	if len(skCand) > 0 && rnd.Intn(2) == 0 {
+		skKey, skKind = skCand[rnd.Intn(len(skCand))], []string{"sk-ed25519", "sk-ecdsa256"}[rnd.Intn(2)]
+	}
 	in := &zvfVInst{u: u, rnd: rnd, keys: map[string]*verifh.KeyPair{}, certs: map[string]*ssh.Certificate{},
 		byBlob: map[string]string{}, byHash: map[hashcode]string{}, noUp: init.Nu, fv: zvfNormSet(init.Fv), classes: map[string]string{}}
 	now0 := time.Now().Unix()
@@ -240,8 +283,16 @@ func zvfNewInst(u *zvfVUniverse, init zvfVState, zvfHasTick bool, rnd *mrand.Ran
 	}
 	sort.Strings(allKeys)
 	for i, k := range allKeys {
-		kp := verifh.PoolKey(i, zvfKeyKindFor(i))
+		kind := zvfKeyKindFor(i)
+		if k == skKey {
+			kind = skKind
+		}
+		if f, ok := force["key:"+k]; ok {
+			kind = f
+		}
+		kp := verifh.PoolKey(i, kind)
 		in.keys[k] = kp
+		in.classes["key:"+k] = kind
 		in.byBlob[string(kp.Pub.Marshal())] = k
 	}
 	cids := make([]string, 0, len(u.Certs))
@@ -270,9 +321,10 @@ func zvfNewInst(u *zvfVUniverse, init zvfVState, zvfHasTick bool, rnd *mrand.Ran
 		in.byHash[hash(crt.Marshal())] = c
 		in.classes[c] = class + "/" + kclass
 	}
-	in.kr = agent.NewKeyring()
+	in.fx = verifh.NewFlexAgent()
+	in.kr = in.fx
 	for _, id := range zvfNormSet(init.U) {
-		if err := in.kr.Add(in.addedKey(id)); err != nil {
+		if err := in.krAdd(id); err != nil {
 			panic(err)
 		}
 	}
@@ -295,6 +347,18 @@ func zvfNewInst(u *zvfVUniverse, init zvfVState, zvfHasTick bool, rnd *mrand.Ran
 	srv.pubKeyComp = func(x, y ssh.PublicKey) bool { return bytes.Equal(x.Marshal(), y.Marshal()) }
 	in.srv = srv
 	return in
+}
+
+// krAdd loads an identity into the underlying agent directly (security-key identities cannot go through Add).
+func (in *zvfVInst) krAdd(id string) error {
+	kid := id
+	if d, ok := in.u.Certs[id]; ok {
+		kid = d.Key
+	}
+	if kp := in.keys[kid]; verifh.IsSKKind(kp.Kind) {
+		return in.fx.AddIdentity(in.pub(id), kp.Signer, "cmt-"+id)
+	}
+	return in.kr.Add(in.addedKey(id))
 }
 
 func (in *zvfVInst) addedKey(id string) agent.AddedKey {
@@ -491,6 +555,9 @@ func (in *zvfVInst) exec(op, arg string) (res zvfVRes) {
 		}
 		return r
 	case "add":
+		if verifh.IsSKKind(in.keyKind(arg)) {
+			panic("verif: harness error: the shim's Add cannot carry a security-key identity")
+		}
 		ak := in.addedKey(arg)
 		if in.rint(3) == 0 {
 			ak.LifetimeSecs = 3600 + uint32(in.rint(1000))
@@ -562,6 +629,11 @@ func (in *zvfVInst) exec(op, arg string) (res zvfVRes) {
 	case "dremove":
 		if err := in.kr.Remove(in.pub(arg)); err != nil {
 			panic("verif: dremove failed: " + err.Error())
+		}
+		return zvfVRes{Ok: true}
+	case "dadd":
+		if err := in.krAdd(arg); err != nil {
+			panic("verif: dadd failed: " + err.Error())
 		}
 		return zvfVRes{Ok: true}
 	case "dlock":
@@ -689,7 +761,14 @@ func TestVerifShim(t *testing.T) {
 			w := plan.Walks[wi]
 			rnd := verifh.NewRand("walk", int64(wi))
 			tick := zvfHasTick(&plan, w)
-			in := zvfNewInst(&plan.Universe, plan.States[w.Init], tick, rnd)
+			wops := make([]zvfVLabel, 0, len(w.Steps)+1)
+			for _, s := range w.Steps {
+				wops = append(wops, plan.Labels[s[0]])
+			}
+			if w.Tail != nil {
+				wops = append(wops, *w.Tail)
+			}
+			in := zvfNewInstSK(&plan.Universe, plan.States[w.Init], tick, rnd, zvfSKCand(&plan.Universe, wops), nil)
 			defer in.close()
 			tid := fmt.Sprintf("w%d", wi)
 			full := wi < plan.FullLog
@@ -780,7 +859,7 @@ func TestVerifShim(t *testing.T) {
 		for _, o := range rp.Ops {
 			tick = tick || o.Op == "tick"
 		}
-		in := zvfNewInst(&rp.Universe, rp.Init, tick, verifh.NewRand("replay", int64(ri)))
+		in := zvfNewInstSK(&rp.Universe, rp.Init, tick, verifh.NewRand("replay", int64(ri)), nil, rp.Info)
 		tid := fmt.Sprintf("p%d", ri)
 		cur := in.project()
 		recs := []interface{}{zvfVRec{Ev: "reset", Tid: tid, Post: cur, Info: in.classes}}
@@ -788,7 +867,7 @@ func TestVerifShim(t *testing.T) {
 			pre := cur
 			var lab zvfVLabel
 			var post zvfVState
-			if o.Op == "tick" || o.Op == "dremove" || o.Op == "dlock" || o.Op == "dunlock" {
+			if o.Op == "tick" || o.Op == "dremove" || o.Op == "dadd" || o.Op == "dlock" || o.Op == "dunlock" {
 				lab = zvfVLabel{Op: o.Op, Arg: o.Arg, F: zvfVFault{"none", "none"}, Res: in.exec(o.Op, o.Arg)}
 				post = in.project()
 			} else {
@@ -945,7 +1024,7 @@ func zvfVRandomTrace(plan *zvfVPlan, ti int, tr *verifh.Trace, st *zvfVStats) {
 	if hasT && rnd.Intn(3) == 0 {
 		tickAt = rnd.Intn(zvfMinInt(n, 25))
 	}
-	in := zvfNewInst(u, init, tickAt >= 0, rnd)
+	in := zvfNewInstSK(u, init, tickAt >= 0, rnd, zvfSKCand(u, nil), nil)
 	defer in.close()
 	tid := fmt.Sprintf("r%d", ti)
 	cur := in.project()
@@ -961,8 +1040,9 @@ func zvfVRandomTrace(plan *zvfVPlan, ti int, tr *verifh.Trace, st *zvfVStats) {
 			}
 			op = "tick"
 		} else {
+		pick:
 			for {
-				op = zvfPick(rnd, cfg.Ops)
+				op, arg = zvfPick(rnd, cfg.Ops), ""
 				if op == "tick" {
 					continue
 				}
@@ -979,26 +1059,39 @@ func zvfVRandomTrace(plan *zvfVPlan, ti int, tr *verifh.Trace, st *zvfVStats) {
 				if op == "dremove" && (cur.Ul || len(cur.U) == 0) {
 					continue
 				}
+				switch op {
+				case "sign", "add", "remove", "dadd":
+					arg = zvfPick(rnd, ids)
+				case "addhard":
+					if rnd.Intn(6) == 0 {
+						arg = zvfPick(rnd, u.Keys)
+					} else {
+						arg = zvfPick(rnd, cids)
+					}
+				case "lock", "unlock":
+					arg = zvfPick(rnd, u.Pass)
+					if op == "unlock" && cur.L && rnd.Intn(2) == 0 && cur.Up != "?" {
+						arg = cur.Up
+					}
+				case "forward":
+					arg = zvfPick(rnd, []string{"ext", "list"})
+				case "dremove":
+					arg = zvfPick(rnd, cur.U)
+				}
+				if op == "add" && verifh.IsSKKind(in.keyKind(arg)) {
+					op = "dadd" // a security-key identity can only be loaded into the underlying agent directly
+				}
+				if op == "dadd" {
+					if cur.Ul {
+						continue
+					}
+					for _, x := range cur.U {
+						if x == arg {
+							continue pick
+						}
+					}
+				}
 				break
-			}
-			switch op {
-			case "sign", "add", "remove":
-				arg = zvfPick(rnd, ids)
-			case "addhard":
-				if rnd.Intn(6) == 0 {
-					arg = zvfPick(rnd, u.Keys)
-				} else {
-					arg = zvfPick(rnd, cids)
-				}
-			case "lock", "unlock":
-				arg = zvfPick(rnd, u.Pass)
-				if op == "unlock" && cur.L && rnd.Intn(2) == 0 && cur.Up != "?" {
-					arg = cur.Up
-				}
-			case "forward":
-				arg = zvfPick(rnd, []string{"ext", "list"})
-			case "dremove":
-				arg = zvfPick(rnd, cur.U)
 			}
 			if len(cfg.Faults) > 0 && rnd.Intn(12) == 0 && !cur.L && !cur.D {
 				f = zvfVFault{Kind: zvfPick(rnd, cfg.Faults), Hit: zvfPick(rnd, []string{"list", "sign", "add", "remove", "removeall", "lock", "unlock", "raw", "list", "remove"})}
@@ -1007,7 +1100,7 @@ func zvfVRandomTrace(plan *zvfVPlan, ti int, tr *verifh.Trace, st *zvfVStats) {
 		pre := cur
 		var lab zvfVLabel
 		var post zvfVState
-		if op == "tick" || op == "dremove" || op == "dlock" || op == "dunlock" {
+		if op == "tick" || op == "dremove" || op == "dadd" || op == "dlock" || op == "dunlock" {
 			res := in.exec(op, arg)
 			lab = zvfVLabel{Op: op, Arg: arg, F: zvfVFault{"none", "none"}, Res: res}
 			post = in.project()
